@@ -45,6 +45,19 @@ def get_func_in_module(module: str, qualname: str) -> Callable[..., Any]:
         raise InvalidTypeError(
             f"{module}.{qualname} is of type '{type(func)}', not function."
         )
+    if isinstance(func, types.BuiltinFunctionType):
+        # A stub needs the function's module and signature; not every builtin
+        # has them (max, a bound method such as [].append).
+        try:
+            inspect.signature(func)
+        except (TypeError, ValueError):
+            has_signature = False
+        else:
+            has_signature = True
+        if not has_signature or not isinstance(func.__module__, str):
+            raise InvalidTypeError(
+                f"{module}.{qualname} is a builtin without module or signature."
+            )
     return func  # type: ignore[no-any-return]
 
 
